@@ -187,7 +187,18 @@ def r6_overrides_recurse(rep, facts):
             continue
         ty = imp.get('self_ty') or '?'
         adt = facts.adts.get(ty) or {}
-        flags = [f['name'] for v in adt.get('variants', []) for f in v.get('fields', []) if f.get('ty') == 'bool']
+        # the visitor's own state: boolean fields, and fields of a workspace enum of unit variants (a two-valued `Nesting { Block, Inline }` is a flag as well)
+        flags, domains = [], []
+        for v in adt.get('variants', []):
+            for f in v.get('fields', []):
+                if f.get('ty') == 'bool':
+                    flags.append(f['name'])
+                    domains.append((False, True))
+                else:
+                    en = facts.adts.get((f.get('ty') or '').split('<')[0]) or {}
+                    if en.get('kind') == 'enum' and en.get('variants') and all(not vv.get('fields') for vv in en['variants']):
+                        flags.append(f['name'])
+                        domains.append(tuple(('ctor', (f.get('ty') or '').split('<')[0] + '::' + vv['name']) for vv in en['variants']))
         for it_ in imp['items']:
             d, name = it_['def'], it_['name']
             if not name.startswith('visit_') or not facts.has_body(d):
@@ -199,7 +210,7 @@ def r6_overrides_recurse(rep, facts):
             bad = []
             try:
                 for n_el in (0, 1, 2, 3):
-                    for vals in itertools.product((False, True), repeat=len(flags)):
+                    for vals in itertools.product(*domains):
                         it = RecInterp(Evaluator(facts), {'clear', 'set_implicit', 'set_trailing', 'set_trailing_comma', 'set_prefix', 'set_suffix', 'set_dotted', 'fmt', 'make_item', 'make_value'},
                                        {name, 'take', 'replace'},
                                        stubs={'len': n_el, 'is_empty': n_el == 0, 'decor_mut': ('opaque',), 'iter_mut': tuple(('item', i) for i in range(n_el)),
